@@ -75,6 +75,7 @@ pub fn registry() -> Vec<PartEntry> {
         part!("C12", rtchan::C12Uni),
         part!("C12", rtchan::C12Multi),
         part!("C13", alloc::C13Pool),
+        part!("C13", poolfree::C13Free),
         part!("C14", alloc::C14Handles),
         part!("C15", seq::C15Channels),
         part!("C15", seq::C15Raw),
@@ -86,6 +87,7 @@ pub fn registry() -> Vec<PartEntry> {
         part!("C19", alloc::C19Average),
         part!("C19", avgfree::C19Free),
         part!("C20", life::C20Suspended),
+        part!("C20", rtpipe::C20Close),
     ]
 }
 
